@@ -70,11 +70,11 @@ Violated == {n \in Names : ~Holds(n)}
 
 Mark(kind) ==
     /\ obs' = [Obs0 EXCEPT !.ev = kind]
-    /\ UNCHANGED <<mapped, pieces, live, call, plive, peak, reps, hw, base>>
+    /\ UNCHANGED <<mapped, pieces, live, call, holes, plive, peak, reps, hw, base>>
 
 ResetEff(e) ==
     /\ mapped' = {} /\ pieces' = {} /\ live' = {} /\ call' = NoCall
-    /\ plive' = 0 /\ peak' = 0 /\ reps' = <<>> /\ hw' = 0 /\ base' = e.base
+    /\ holes' = {} /\ plive' = 0 /\ peak' = 0 /\ reps' = <<>> /\ hw' = 0 /\ base' = e.base
     /\ obs' = Obs0
 
 Apply(e) ==
